@@ -3,7 +3,7 @@
 from /verif/seeded/*/meta.json."""
 import json, glob, os, re
 rows = []
-for d in sorted(glob.glob('/verif/seeded/*')):
+for d in sorted(glob.glob('/verif/seeded/C*')):
     m = json.load(open(d + '/meta.json'))
     sid = os.path.basename(d)
     summ = (m.get('summary') or '').replace('\n', ' ').replace('|', '\\|')
